@@ -117,6 +117,15 @@ class ScriptAgent(Agent):
         if "label" not in self.properties:
             self.set_property("label", {"type": "String", "value": "agent%d" % self.id})
 
+    def receive_event(self, event):
+        # a dispatcher: an event that says so is forwarded at RECEIPT (while the scheduler is still distributing this step's events)
+        super().receive_event(event)
+        fwd = event.data.get("fwd") if isinstance(event.data, dict) else None
+        if fwd:
+            w = self.model.world
+            self.model.enqueue_event(Event("ping", self.id, fwd["to"], data={"uid": fwd["uid"]}))
+            w.sent.append((w.k, fwd["uid"], fwd["to"], None))
+
     def reset_cache(self):
         h = self.model.world.cache_hooks.pop(self.id, None)
         if h is not None:
@@ -155,6 +164,12 @@ class ScriptAgent(Agent):
         for s in w.sends.get((w.k, self.id), ()):
             send(self.model, w, s, self.id)
         for op in w.act_ops.get((w.k, self.id), ()):
+            if op["op"] == "sd_edit":
+                # a hybrid model: the agent changes an SD equation while it acts (every such edit resets the SD cache)
+                if "price" not in self.model.constants:
+                    self.model.constant("price")
+                self.model.constants["price"].equation = float(op["value"])
+                continue
             if op["op"] == "raise":
                 # (harness) an injected fault: this agent's act fails half-way
                 w.failed_acts = getattr(w, "failed_acts", [])
@@ -201,6 +216,8 @@ def send(model, w, s, sender_id):
     # same article): they are separate events, each of them is handled
     for _ in range(s.get("copies", 1)):
         data = {"uid": s["uid"]}
+        if s.get("fwd"):
+            data["fwd"] = dict(s["fwd"])
         if s.get("delay") is None:
             ev = (Memo if sub else Event)(s.get("name", "ping"), sender_id, s["to"], data=data)
         else:
